@@ -336,6 +336,11 @@ def is_empty_marker(d):
     return d is inspect.Parameter.empty
 
 
+def is_module(d):
+    import types
+    return isinstance(d, types.ModuleType)
+
+
 def is_complex(d):
     return isinstance(d, complex)
 
